@@ -553,4 +553,87 @@ def retroMateOps (n : Nat) (sops : List String) : G (List String) := do
     | none => pure ()
   return out
 
+/-- queen-dense positions: `q` queens a side (plus kings) on random squares, accepted when the SPEC
+    calls the position legal and the side to move has a move.  Their capture search is enormous
+    (mutual captures everywhere), which is what the latency clause of C08 needs to see. -/
+def densePosition (q : Nat) : Nat → G (Option Spec.Position)
+  | 0 => return none
+  | tries + 1 => do
+    let mut P : Spec.Position :=
+      { cells := Array.replicate 64 none, side := .white, wks := false, wqs := false, bks := false, bqs := false, ep := none }
+    let wk : Spec.Sq := ⟨← below 8, ← below 8⟩
+    let bk : Spec.Sq := ⟨← below 8, ← below 8⟩
+    if wk == bk then return ← densePosition q tries
+    P := (P.put wk (some ⟨.white, .king⟩)).put bk (some ⟨.black, .king⟩)
+    for i in [0:2 * q] do
+      let s : Spec.Sq := ⟨← below 8, ← below 8⟩
+      if (P.at s).isNone then
+        P := P.put s (some ⟨if i % 2 == 0 then .white else .black, .queen⟩)
+    let side ← if ← chance 1 2 then pure Color.white else pure Color.black
+    P := { P with side := side }
+    if Spec.LegalPosition P && !(Spec.legalMoves P).isEmpty then return some P else densePosition q tries
+
+def denseOps (n q : Nat) (sops : List String) : G (List String) := do
+  let mut out : List String := []
+  for _ in [0:n] do
+    match ← densePosition q 400 with
+    | some P => out := out ++ [s!"pos position fen {Spec.toFen P 0 1}"] ++ sops
+    | none => pure ()
+  return out
+
+/-- positions in which the side to move has exactly `want` legal moves (forced replies), collected
+    along random playouts; each is emitted with its game history -/
+def fewMovesOps (n want maxPlies : Nat) (sops : List String) : G (List String) := do
+  let mut out : List String := []
+  let mut found := 0
+  for gi in [0:n * 60] do
+    if found < n then
+      let stem := stemsOK.getD (gi % stemsOK.length) ""
+      let mut P := parseStem stem
+      let mut ms : List String := []
+      for _ in [0:maxPlies] do
+        let lm := Spec.legalMoves P
+        if !lm.isEmpty && found < n then
+          if lm.length == want && !ms.isEmpty then
+            out := out ++ [s!"pos position fen {stem} moves {" ".intercalate ms}"] ++ sops
+            found := found + 1
+          -- prefer checking moves: forced replies come after checks
+          let checks := lm.filter fun m => let Q := Spec.apply P m; Spec.inCheck Q Q.side
+          let m ← if !checks.isEmpty && (← chance 2 3) then pick checks else pick lm
+          P := Spec.apply P m
+          ms := ms ++ [Spec.moveText m]
+  return out
+
+/-- hand-built lattices of mutually protected queens: their capture search takes from half a second
+    to minutes on the engine, which never looks at the clock inside `quiesce` -/
+def heavyStems : List String := [
+  "r5k1/2q1q1q1/3Q1Q1Q/2q1q1q1/3Q1Q1Q/1np5/8/K7 w - - 0 1",
+  "kq1Q1q1Q/qq2Q3/2Q1q2Q/1q4Q1/3q1Q2/4q1q1/5nPP/6RK w - - 0 1",
+  "r5k1/2q1q1q1/3Q1Q1Q/2q1q1q1/3Q1Q1Q/1np5/8/K7 b - - 0 1"]
+
+/-- variants of the heavy stems (colour mirror, up to two queens removed, one random legal move
+    played), kept when the SPEC calls them legal and the side to move has a move -/
+def heavyOps (n : Nat) (sops : List String) : G (List String) := do
+  let mut out : List String := []
+  for gi in [0:n * 20] do
+    if out.length < n * (1 + sops.length) then
+      let stem := heavyStems.getD (gi % heavyStems.length) ""
+      match Spec.parseFen stem with
+      | none => pure ()
+      | some P0 =>
+        let mut P := P0
+        if ← chance 1 2 then P := mirrorPos P
+        let drop ← below 3
+        for _ in [0:drop] do
+          let s : Spec.Sq := ⟨← below 8, ← below 8⟩
+          match P.at s with
+          | some pc => if pc.kind == .queen then P := P.put s none
+          | none => pure ()
+        if gi ≥ heavyStems.length && (← chance 1 2) then
+          let lm := Spec.legalMoves P
+          if Spec.LegalPosition P && !lm.isEmpty then P := Spec.apply P (← pick lm)
+        if Spec.LegalPosition P && !(Spec.legalMoves P).isEmpty then
+          out := out ++ [s!"pos position fen {Spec.toFen P 0 1}"] ++ sops
+  return out
+
 def runG {α : Type} (seed : Nat) (g : G α) : α := (g.run ⟨UInt64.ofNat seed⟩).1
